@@ -36,6 +36,15 @@ const Spec specs[] = {
      {"PLIST_ADD", 8}, {"CAPTURE", 0}, {"SBIND_PUSH", 0}, {"USING_PUSH", 0}, {"PRAGMA_TOKEN", 0}, {"REQ_PUSH", 0}, {"STMT_ATTR", 0}}},
    {"printer",          {   3,   3,   5,  3,   9,   7,   8,   5,  2,   1,   0,   1,   2,   6,   1,   0},
     {{"PRINT", 22}, {"LOCATE", 8}, {"UNARY", 16}, {"BINARY", 16}, {"DECL", 14}, {"LITERAL", 12}, {"ENCLOSURE", 8}, {"ADD_STMT", 8}, {"BLOCK", 6}, {"UDT_NAME", 5}}},
+   // C05: everything, with growth of containers, of the unification tables and of the string arena between re-observations
+   {"stability",        {   4,   4,   5,  3,   8,   6,   8,   9,  3,   6,   3,   1,   2,   6,   2,   0},
+    {{"REPEAT", 6}, {"JUNK", 1}, {"UNARY", 14}, {"BINARY", 14}, {"DECL", 18}, {"FORM", 10}, {"FORM_FILL", 6}, {"ATTR", 4}, {"TOKEN", 3}, {"LONGSTR", 5}, {"BULK", 2},
+     {"STRING", 8}, {"IDENT_W", 8}, {"ENUMERATOR", 10}, {"PLIST_ADD", 10}, {"XLIST_PUSH", 8}, {"ADD_STMT", 8}, {"NEW_HANDLER", 5}, {"BASE", 6}}},
+   // C15: everything, with more of what the derived operations are defined on (blocks with and without handlers, grown sequences, value types)
+   {"derived",          {   4,   6,   6,  4,   8,   6,   8,   8,  3,   4,   2,   1,   2,   6,   2,   0},
+    {{"REPEAT", 4}, {"JUNK", 1}, {"UNARY", 12}, {"BINARY", 12}, {"DECL", 16}, {"FORM", 8}, {"FORM_FILL", 5}, {"BLOCK", 36}, {"NEW_HANDLER", 40}, {"ADD_STMT", 14},
+     {"PRODUCT", 16}, {"SUM", 10}, {"XLIST", 8}, {"XLIST_PUSH", 20}, {"PLIST_ADD", 20}, {"MAPPING", 8}, {"ENUMERATOR", 10}, {"BASE", 6}, {"TRANSFER", 8},
+     {"LINKAGE_W", 6}, {"LINKAGE_S", 4}, {"CONVENTION", 8}, {"LOGOGRAM", 8}, {"FUNCTION", 8}, {"DECL_FILL", 8}, {"MAP_FILL", 6}}},
    {"lifetime",         {   4,   4,   6,  3,   8,   6,   8,   6,  3,   5,   3,   1,   2,   5,   2,   0},
     {{"PRINT", 3}, {"BULK", 1}, {"REPEAT", 8}, {"JUNK", 1}, {"LOCATE", 1}, {"DECL", 14}, {"UNARY", 12}, {"BINARY", 12}, {"LONGSTR", 5}}},
 };
